@@ -95,5 +95,19 @@ func genEvalCache(g *gen) {
 			g.emit("S cage 8")
 			g.emit("S cq %s %s 1", c, gr)
 		}
+		if i%12 == 9 && i < 400 {
+			// two requests for one group while its entry has expired, storage has changed, and the evaluation of the first is
+			// still waiting for storage: BOTH answers are the group's status now, none is the expired entry
+			c, gr := hexName(clusters[g.intn(len(clusters))]), hexName(g.pickS("c", "g", "b c"))
+			order++
+			g.emit("S commit %s %s %s 0 %d %d %d", c, gr, hexName("t"), 40, order, -2000+order*500)
+			g.emit("S cage 30008")
+			g.emit("S cq %s %s 1", c, gr)
+			order++
+			g.emit("S commit %s %s %s 0 %d %d %d", c, gr, hexName("t"), 60+order, order, -2000+order*500)
+			g.emit("S broker %s %s 0 2 %d 1", c, hexName("t"), 7000+order)
+			g.emit("S cage 30008")
+			g.emit("S cqdup %s %s 1", c, gr)
+		}
 	}
 }
